@@ -175,12 +175,13 @@ pub fn decode_timer(data: &[u8]) -> c13::Case {
     for _ in 0..ninj {
         let t = u.arbitrary::<u8>().unwrap_or(0);
         let a = u.arbitrary::<u16>().unwrap_or(0) as usize;
-        injects.push(match t % 6 {
+        injects.push(match t % 7 {
             0 => c13::Inject::ZeroReading { probe: a % 400, second: t & 8 != 0 },
             1 => c13::Inject::Mult32 { probe: a % 400, k: 1 + (t >> 4) as u64 },
             2 => c13::Inject::Backwards { from: a % 400, stride: 1 + (t >> 3) as usize, count: (a >> 9) % 9, back: (t >> 2) as u64 },
             3 => c13::Inject::Mod100 { count: if t & 8 != 0 { 266 + a % 9 } else { a % 301 } },
             5 => c13::Inject::LinkWarmup { mode: (t >> 4) % 3 },
+            6 => c13::Inject::AbsReading { probe: a % 400, second: t & 8 != 0, value: ((t >> 4) as u64 + 1) << 32 },
             _ => c13::Inject::Stuck { count: if t & 8 != 0 { 266 + a % 9 } else { a % 300 } },
         });
     }
